@@ -14,6 +14,8 @@ package main
 // loads are operands of an equality inside that loop (the running evaluation). Then
 //   (a) no value stored into R inside the loop depends on a load of R (dependence through calls' arguments, API
 //       operations, φs and local memory);
+//   (c) before the loop R is assigned the result of one module call (the combination of the initial openings) that
+//       does not read the reduction steps' data;
 //   (b) every load of R flows only into equality assertions (api.AssertIsEqual, directly or through module
 //       functions whose parameter again flows only there) — it is compared as it is, before and after the loop.
 
@@ -95,6 +97,16 @@ func storesInto(a *ssa.Alloc) []*ssa.Store {
 
 // dependsOnLocal: v is computed from a load of local a (through operands, call arguments, φs and local memory)
 func dependsOnLocal(v ssa.Value, a *ssa.Alloc) bool {
+	return sliceHits(v, func(x ssa.Value) bool {
+		if al := allocOfLoad(x); al != nil && al == a {
+			return true
+		}
+		return x == ssa.Value(a)
+	})
+}
+
+// sliceHits: some value in the backward slice of v (operands, call arguments, φs, local memory) satisfies hit
+func sliceHits(v ssa.Value, hit func(ssa.Value) bool) bool {
 	seen := map[ssa.Value]bool{}
 	var walk func(x ssa.Value, d int) bool
 	walk = func(x ssa.Value, d int) bool {
@@ -102,34 +114,29 @@ func dependsOnLocal(v ssa.Value, a *ssa.Alloc) bool {
 			return false
 		}
 		seen[x] = true
+		if hit(x) {
+			return true
+		}
 		if al := allocOfLoad(x); al != nil {
-			if al == a {
-				return true
-			}
 			for _, st := range storesInto(al) {
 				if walk(st.Val, d+1) {
 					return true
 				}
 			}
+			// the address computation itself (an index or field of something else)
+			if u, ok := stripCopies(x).(*ssa.UnOp); ok {
+				return walk(u.X, d+1)
+			}
 			return false
 		}
 		switch u := x.(type) {
 		case *ssa.Alloc:
-			if u == a {
-				return true
-			}
 			for _, st := range storesInto(u) {
 				if walk(st.Val, d+1) {
 					return true
 				}
 			}
 			return false
-		case *ssa.Slice:
-			return walk(u.X, d+1)
-		case *ssa.IndexAddr:
-			return walk(u.X, d+1)
-		case *ssa.FieldAddr:
-			return walk(u.X, d+1)
 		}
 		ins, ok := x.(ssa.Instruction)
 		if !ok {
@@ -316,6 +323,101 @@ func ruleRunningEvaluation(cx *Ctx) []Obligation {
 					}
 				}
 				if ok, why := localOnlyCompared(P, al, 0, map[ssa.Value]bool{}); !ok {
+					whys = append(whys, why)
+				}
+				// the value it starts with: the result of one call (the combination of the initial openings), computed
+				// without the step data — otherwise the first consistency check compares the step's claim with itself
+				for _, st := range outLoop {
+					src := stripCopies(st.Val)
+					for k := 0; k < 4; k++ {
+						a2 := allocOfLoad(src)
+						if a2 == nil || a2 == al {
+							break
+						}
+						sts := storesInto(a2)
+						if len(sts) != 1 {
+							break
+						}
+						src = stripCopies(sts[0].Val)
+					}
+					if c, isCall := src.(*ssa.Call); !isCall || c.Common().StaticCallee() == nil || !P.InModule(c.Common().StaticCallee()) {
+						whys = append(whys, "the running evaluation does not start as the result of one call (the combined initial openings) at "+P.Pos(st.Pos())+": "+src.String())
+						continue
+					}
+					if sliceHits(src, func(x ssa.Value) bool {
+						fa, ok := x.(*ssa.FieldAddr)
+						return ok && fieldName(fa.X.Type(), fa.Field) == "Steps"
+					}) {
+						whys = append(whys, "the initial running evaluation at "+P.Pos(st.Pos())+" is computed from the reduction steps' data")
+					}
+				}
+				if len(whys) > 0 {
+					obs = append(obs, bad(key, desc, strings.Join(whys, " | "), site))
+				} else {
+					obs = append(obs, good(key, desc, site))
+				}
+			}
+		}
+	}
+	// the same running value held in a register: an extension-typed φ of a loop header (the local is never indexed,
+	// e.g. compared through AssertIsEqualExtension only)
+	for _, fn := range P.ModuleFuncsSorted() {
+		if fn.Blocks == nil || fnPkgShort(fn) != "fri" {
+			continue
+		}
+		fi := GetFnInfo(fn)
+		for _, l := range fi.Loops {
+			for _, ins := range l.Header.Instrs {
+				phi, ok := ins.(*ssa.Phi)
+				if !ok {
+					break
+				}
+				if !isQEType(phi.Type()) || phi.Referrers() == nil {
+					continue
+				}
+				compared := false
+				for _, r := range *phi.Referrers() {
+					c, ok := r.(ssa.CallInstruction)
+					if !ok || r.Block() == nil || !l.Blocks[r.Block()] {
+						continue
+					}
+					if isEqualityCall(c) {
+						compared = true
+					} else if g := c.Common().StaticCallee(); g != nil && g.Blocks != nil && P.InModule(g) && containsEquality(g) {
+						for ai, a := range c.Common().Args {
+							if a == ssa.Value(phi) && ai < len(g.Params) {
+								if okc, _ := onlyCompared(P, g.Params[ai], 1, map[ssa.Value]bool{}); okc {
+									compared = true
+								}
+							}
+						}
+					}
+				}
+				if !compared {
+					continue
+				}
+				found++
+				site := P.FnName(fn) + " " + P.Pos(phi.Pos())
+				var whys []string
+				for i, p := range l.Header.Preds {
+					e := phi.Edges[i]
+					if l.Blocks[p] {
+						if sliceHits(e, func(x ssa.Value) bool { return x == ssa.Value(phi) }) {
+							whys = append(whys, "the value carried to the next step is derived from the previous running evaluation ("+e.Name()+")")
+						}
+						continue
+					}
+					src := stripCopies(e)
+					if c, isCall := src.(*ssa.Call); !isCall || c.Common().StaticCallee() == nil || !P.InModule(c.Common().StaticCallee()) {
+						whys = append(whys, "the running evaluation does not start as the result of one call (the combined initial openings): "+src.String())
+					} else if sliceHits(src, func(x ssa.Value) bool {
+						fa, ok := x.(*ssa.FieldAddr)
+						return ok && fieldName(fa.X.Type(), fa.Field) == "Steps"
+					}) {
+						whys = append(whys, "the initial running evaluation is computed from the reduction steps' data")
+					}
+				}
+				if ok, why := onlyCompared(P, phi, 0, map[ssa.Value]bool{}); !ok {
 					whys = append(whys, why)
 				}
 				if len(whys) > 0 {
